@@ -190,6 +190,21 @@ def _account(acc, scenario, result, keep_digest, want_sample):
         acc["samples"].append({"scenario": scenario, "trace": result.trace})
 
 
+def _twice_in_one_process(prop_id, tier, base_seed, det_count):
+    prop = load_prop(prop_id)
+    digests, problems = {}, []
+    for index in range(det_count):
+        first, error1 = safe_execute(prop, scenario_for(prop, tier, base_seed, index))
+        second, error2 = safe_execute(prop, scenario_for(prop, tier, base_seed, index))
+        if error1 or error2:
+            problems.append("self-test run %d failed: %s" % (index, error1 or error2))
+            break
+        if first.digest != second.digest:
+            problems.append("nondeterminism: run %d differs between two executions in one process" % index)
+        digests[index] = first.digest
+    return digests, problems
+
+
 def _batch_scenarios(prop, tier, base_seed, start, count, source):
     if source == "search":
         return (scenario_for(prop, tier, base_seed, index) for index in range(start, start + count))
@@ -365,17 +380,10 @@ def _run_check(prop_id, tier, base_seed):
     batch = max(10, getattr(prop, "BATCH", 250))
     det_count = 24 if tier == "quick" else 120
 
-    # ---- determinism, part 1: same run twice in this process -------------------------------
-    local_digests = {}
-    for index in range(det_count):
-        first, error1 = safe_execute(prop, scenario_for(prop, tier, base_seed, index))
-        second, error2 = safe_execute(prop, scenario_for(prop, tier, base_seed, index))
-        if error1 or error2:
-            harness_problems.append("self-test run %d failed: %s" % (index, error1 or error2))
-            break
-        if first.digest != second.digest:
-            harness_problems.append("nondeterminism: run %d differs between two in-process executions" % index)
-        local_digests[index] = first.digest
+    # ---- determinism, part 1: same run twice in one process (a forked child: this process never executes a
+    # scenario itself, so that the children it forks later start from a pristine state) ------------------
+    local_digests, problems = in_child(_twice_in_one_process, prop_id, tier, base_seed, det_count)
+    harness_problems.extend(problems)
 
     total = _new_acc()
     context = multiprocessing.get_context("fork")
